@@ -16,9 +16,13 @@ reference model harness/models/gel.py, checking after every operation:
      created.
 
   G  ("turns") full orchestrator turns: state['graph'] after each turn == the same operations applied through the
-     direct API (itself checked by A-E); gate off: no state['graph'], no gel.jsonl.
+     direct API (itself checked by A-E), also across a process restart (fresh state boot-loading the snapshot the
+     previous turn wrote == API round trip); gate off: no state['graph'] (a pre-existing one bit-identical), no gel.jsonl;
+  H  snapshot round trip (write_snapshot + load_latest_snapshot) of a graph satisfying A: same keys, same endpoints;
+     boot load of a legacy body: A up to the order of src/dst inside a record, no pair that was not stored.  The
+     reference model takes the loaded weights over as new initial content.
 
-Sub-checks machine/observe/tick/maint/gate share the history format (`replay_history`); turns has `replay_turns`.
+Sub-checks machine/observe/tick/maint/gate/boot share the history format (`replay_history`); turns has `replay_turns`.
 """
 from __future__ import annotations
 
@@ -35,22 +39,32 @@ from harness.models.gel import GelModel, canon, SEP, exp2_close
 LEVEL = "exploration"
 FINDING = "gel-decay-below-clamp-min"
 
-RULE = ("Histories over {observe(items), tick(dt), merge pass/direct, split pass/direct, promote pass/direct/apply} under "
+RULE = ("Histories over {observe(items), tick(dt), merge pass/direct, split pass/direct, promote pass/direct/apply, "
+        "snapshot round trip into the same or a fresh state} under "
         "graph.* settings built from a frozen in-range table and passed through the repo's validate_config (both update "
-        "modes, alpha 1e-9..1e308, clamp ranges incl. ones excluding 0, half-lives 1..1e6, floors 0..clamp_max, top-k "
-        "1..64, pair caps 0..2048), on attribute- and dict-shaped states/contexts, optionally with pre-existing edges. "
-        "Item lists: 0..12 items over 9 ids (unicode, numeric-looking, int ids, a concept-looking id) in 10 shapes "
-        "(tuples, 4 dict spellings, EpisodeRef, 3 namespace spellings), scores with ties, duplicates, NaN, +-inf, +-0, "
-        "values one ulp around the threshold. Non-trivial: machine = history with >=1 clamp hit AND >=1 edge dropped "
+        "modes, alpha 1e-9..1e308, clamp ranges incl. 0 as either bound and (rarely) ones excluding 0, half-lives 1..1e17, "
+        "floors 0..clamp_max incl. floor == clamp_max, top-k 1..1e9, pair caps 0..1e9), on attribute- and dict-shaped states, "
+        "contexts exposing .cfg+.config / only one of them / a plain dict, optionally with a pre-existing graph store in 6 "
+        "shapes (full, edges only, no meta, legacy meta, state.gel alias, graph=None), left-over concept nodes, weights one "
+        "ulp around floor*2**j. Item lists: 0..12 items over 9 frequent + 13 rare ids (unicode incl. NFC/NFD twins, "
+        "numeric-looking, int ids, concept ids, ids around the 'c::' prefix, an id holding the key arrow, ids with '_') in 10 "
+        "shapes (tuples, 4 dict spellings, EpisodeRef, 3 namespace spellings), scores with ties, duplicates, NaN, +-inf, +-0, "
+        "values one ulp around the threshold; observe also 65..80 items with top-k / pair cap at and above the defaults. "
+        "boot = a legacy snapshot body (edge list or dict under foreign keys, endpoints in either order, a pair listed "
+        "twice) boot-loaded, then a short history; non-trivial when it holds a reversed or repeated pair. "
+        "Non-trivial: machine = history with >=1 clamp hit AND >=1 edge dropped "
         "by the floor AND >=1 effective permuted observation (non-identity permutation, >=2 items used); observe = "
         ">=1 pair updated, non-identity permutation and a tie / cap truncation / top-k truncation / threshold filter; "
         "tick = >=1 edge dropped and >=1 edge kept-and-decayed; maint = >=1 merge or split record applied and >=1 "
         "promotion applied; gate = >=3 ops incl. an observation that would have paired items and a direct apply; "
         "turns (1-3 real Orchestrator.run_turn turns over 2-6 generated episodes, real T2 scores, maintenance flags "
-        "random) = gate on and >=1 pair updated, or gate off and T2 returned >=2 items. "
+        "random, usually a pre-existing graph with strong pairs / weak bridges / ids sorting before 'c::', process restarts "
+        "that boot-load the previous turn's snapshot) = gate on and >=1 pair updated or >=1 maintenance record applied, or "
+        "gate off and T2 returned >=2 items. "
         "Distinct = digest of the whole history / case.")
 ASSUMPTIONS = [
-    "ids do not contain the key separator '→' (two different pairs could otherwise share a key); config numbers are "
+    "at most one id holds the key separator '→' and no id is a prefix/suffix part of it (two different pairs could "
+    "otherwise share a key); config numbers are "
     "finite (non-finite values accepted by one-sided validator tests are C14's finding, e.g. alpha=inf makes NaN weights)",
     "update amounts follow the repo's own unit tests (additive: +alpha; proportional: +alpha*(1-min(|w|,1))), the "
     "decay factor is 0.5**(dt/half_life) evaluated in the same interpreter; an independent exp2 cross-check uses rel 1e-12",
@@ -58,9 +72,16 @@ ASSUMPTIONS = [
     "ticks; promotion attach weights are only required to be what the promotion plan says",
     "bookkeeping fields (last_seen_turn, updated_at, meta.edges_count) are not part of the oracle, except that "
     "merge/split may not touch anything but their own meta list",
+    "a snapshot round trip / boot load is only required to keep one record per unordered pair under the canonical key "
+    "(records of a legacy body may keep src > dst); weights, rel and counters it returns are taken over by the model",
 ]
 
 IDS = ["a", "b", "c", "B", "ä", "10", "9", "c::a", "x y"]
+# rarer ids: concept ids a promotion can have created (observing them co-activates concept edges, e.g. ones attached
+# with a negative weight), an id holding the key arrow (no other id is "p", "q" or holds an arrow, so keys stay
+# unambiguous), ids with the snapshot key separator "_", ids sorting right around the "c::" prefix
+IDS_RARE = ["c::b", "c::B", "c::10", "c::9", "p→q", "a_", "_b", "C", "c:", "c:;", "c::", "é", "e\u0301"]
+BIG_IDS = [f"n{i:02d}" for i in range(90)]
 SHAPES = ["tuple", "tuple", "tuple3", "dict", "dict_ep", "dict_node_sim", "dict_target", "ref", "ref", "ns", "ns_ep_sim",
           "ns_idonly"]
 NAN, INF = float("nan"), float("inf")
@@ -116,6 +137,16 @@ class _State:
     pass
 
 
+def _tmp_base():
+    """Scratch directory for the snapshot files of one op: $VERIF_TMP like the harness, else a RAM disk if there is one."""
+    import os
+    base = os.environ.get("VERIF_TMP")
+    if base:
+        return base
+    shm = "/dev/shm"
+    return shm if os.path.isdir(shm) and os.access(shm, os.W_OK | os.X_OK) else None
+
+
 def _snap(state):
     """Order-preserving serialisation of the whole state (bit-identity oracle for the disabled path)."""
     body = dict(vars(state)) if isinstance(state, _State) else state
@@ -157,29 +188,68 @@ class World:
                     rec.label("cfg_rejected_by_validator")
                 return
             raise RuntimeError(f"generator built graph settings the validator rejects: {e} :: {self.g}")
-        self.ctx = cfg if init.get("ctx") == "dict" else make_ctx(cfg)
-        if init.get("state") == "dict":
-            self.state = {"version_etag": "v0", "active_graphs": ["g0"], "other": {"k": [1, 2.5, None]}}
+        self.cfg = cfg
+        ck = init.get("ctx")
+        if ck == "dict":
+            self.ctx = cfg
+        elif ck == "cfg_only":  # gel documents "objects with .config/.cfg": either attribute alone must do
+            self.ctx = SimpleNamespace(cfg=cfg, turn_id=1, agent_id="A")
+        elif ck == "config_only":
+            self.ctx = SimpleNamespace(config=cfg, turn_id=1, agent_id="A")
         else:
-            self.state = _State()
-            self.state.version_etag = "v0"
-            self.state.other = {"k": [1, 2.5, None]}
+            self.ctx = make_ctx(cfg)
+        self.state_kind = "dict" if init.get("state") == "dict" else "obj"
+        self.state = self._fresh_state()
         self.model = GelModel(self.g) if self.enabled else None
+        self.loose = False  # True once a legacy snapshot was loaded: records may keep src > dst under the canonical key
         edges0 = init.get("edges") or []
-        if edges0 or init.get("has_graph"):
+        nodes0 = init.get("nodes") or []
+        shape = init.get("store_shape") or "full"
+        if edges0 or nodes0 or init.get("has_graph"):
             store = {"nodes": {}, "edges": {}, "meta": {"schema": "v1", "merges": [], "splits": [], "promotions": [],
                                                        "concept_nodes_count": 0}}
             for a, b, w, rel in edges0:
                 key, r = edge_record(a, b, w, rel)
+                if rel == "concept" and init.get("bare_concept_attrs"):
+                    r["attrs"] = {}  # what apply_promotion itself writes
                 store["edges"][key] = r
                 if self.model is not None:
                     self.model.put_edge(a, b, w, rel)
-            if isinstance(self.state, dict):
-                self.state["graph"] = store
-            else:
-                self.state.graph = store
+            for cid, label in nodes0:  # concept nodes from an earlier promotion whose edges may be gone
+                store["nodes"][cid] = {"id": cid, "label": label, "attrs": {"kind": "concept"}}
+                store["meta"]["concept_nodes_count"] += 1
+                if self.model is not None:
+                    self.model.nodes[cid] = dict(store["nodes"][cid])
+                    self.model.concepts += 1
+            if shape == "edges_only" and not nodes0:
+                store = {"edges": store["edges"]}
+            elif shape == "no_meta":
+                del store["meta"]
+            elif shape == "meta_v1" and not nodes0:
+                store["meta"] = {"schema": "v1"}
+            self._set("graph", store)
+            if shape == "alias_gel":  # the boot loader leaves state.graph and state.gel pointing at ONE dict
+                self._set("gel", store)
+        elif shape == "none_value":
+            self._set("graph", None)
+        if init.get("legacy") is not None and self.enabled:
+            self._boot_legacy(init["legacy"])
         self.had_graph = self.graph() is not None
         self.snap0 = _snap(self.state)
+
+    def _fresh_state(self):
+        if self.state_kind == "dict":
+            return {"version_etag": "v0", "active_graphs": ["g0"], "other": {"k": [1, 2.5, None]}}
+        s = _State()
+        s.version_etag = "v0"
+        s.other = {"k": [1, 2.5, None]}
+        return s
+
+    def _set(self, k, v):
+        if isinstance(self.state, dict):
+            self.state[k] = v
+        else:
+            setattr(self.state, k, v)
 
     # ------------------------------------------------------------------ helpers
     def flag(self, k, n=1):
@@ -201,7 +271,10 @@ class World:
     def real_view(self):
         out = {}
         for k, r in self.edges().items():
-            out[k] = (r.get("src"), r.get("dst"), r.get("weight"), r.get("rel"), int((r.get("attrs") or {}).get("coact", 0)))
+            src, dst = r.get("src"), r.get("dst")
+            if self.loose and isinstance(src, str) and isinstance(dst, str) and src > dst:
+                src, dst = dst, src
+            out[k] = (src, dst, r.get("weight"), r.get("rel"), int((r.get("attrs") or {}).get("coact", 0)))
         return out
 
     def check_structure(self, where):
@@ -210,6 +283,8 @@ class World:
             src, dst, w = r.get("src"), r.get("dst"), r.get("weight")
             if not (isinstance(src, str) and isinstance(dst, str)):
                 self.fail(f"after {where}: edge {k!r} has non-string endpoints {src!r},{dst!r}", "endpoint-type")
+            if self.loose and src > dst:  # a legacy snapshot record: the property speaks about the key only
+                src, dst = dst, src
             if not src <= dst:
                 self.fail(f"after {where}: edge {k!r} stored with src {src!r} > dst {dst!r}", "non-canonical")
             if k != src + SEP + dst or r.get("id") != k:
@@ -309,6 +384,10 @@ class World:
             self.flag("obs_permuted")
         if info["clamp_hits"]:
             self.flag("clamp_hit", info["clamp_hits"])
+        if info["k_used"] > 64:
+            self.flag("obs_used_beyond_64")
+        if info["pairs"] > 2048:
+            self.flag("obs_pairs_beyond_2048")
         scores = [float(abstract_item(it)[1]) for it in items]
         qual = [s for s in scores if s >= self.model.threshold]
         if len(qual) < len(scores):
@@ -367,6 +446,8 @@ class World:
                       f"(factor {info['factor']!r}, weights before {before})", "floor-exact")
         if m.get("dropped_edges") != len(gone):
             self.fail(f"tick metrics {m} but {len(gone)} edges were removed", "tick-metrics")
+        if m.get("decayed_edges") != kept_decayed:
+            self.fail(f"tick metrics {m} but {kept_decayed} kept edges changed their weight", "tick-metrics-decayed")
         self.check_model("tick")
         self.check_bounds("tick", after_tick=True)
         if gone:
@@ -397,7 +478,7 @@ class World:
                 self.fail(f"{what}: appended record {r} does not describe {want}", f"{listname}-record")
 
     def _candidates(self, fn, name):
-        pre = copy.deepcopy(self.graph())
+        pre = self._ensure()
         c1 = fn(self.ctx, self.state)
         c2 = fn(self.ctx, self.state)
         if c1 != c2:
@@ -513,7 +594,11 @@ class World:
 
     def _promote_clusters(self, clusters):
         from clematis.engine import gel
+        pre = self._ensure()
         promos = gel.promote_clusters(self.ctx, self.state, copy.deepcopy(clusters))
+        g = self.graph()
+        if g["nodes"] != pre["nodes"] or g["edges"] != pre["edges"] or _meta_norm(g.get("meta")) != _meta_norm(pre.get("meta")):
+            self.fail("promote_clusters (planning only) modified the graph", "candidates-mutate")
         want = self.model.plan_promotions(clusters)
         if promos != want:
             self.fail(f"promote_clusters({clusters}) = {promos}, reference plan {want}", "promotion-plan")
@@ -529,6 +614,107 @@ class World:
 
     def do_promote_apply(self, op):
         self._promote_one(op["promo"])
+
+    # ------------------------------------------------------------------ snapshot round trip / boot load
+    def _snap_ctx(self, d):
+        from harness.world import AttrDict, make_ctx
+        cfg = AttrDict(self.cfg)
+        t4 = AttrDict(cfg.get("t4") or {})
+        t4["snapshot_dir"] = d
+        cfg["t4"] = t4
+        return make_ctx(cfg, agent="A")
+
+    def _resync(self, where, allowed_pairs=None):
+        """The graph was (re)loaded from a snapshot: it is new initial content for the model.  Only what the property
+        states is asserted (canonical key, one record per unordered pair, finite weights)."""
+        self.check_structure(where)
+        g = self.graph()
+        self.model.edges.clear()
+        self.model.covered.clear()
+        for k, r in g["edges"].items():
+            lo, hi = sorted((r["src"], r["dst"]))
+            if allowed_pairs is not None and (lo, hi) not in allowed_pairs:
+                self.fail(f"after {where}: edge {k!r} joins {lo!r},{hi!r}, no such pair was stored", "snapshot-invented-pair")
+            self.model.edges[k] = {"src": lo, "dst": hi, "w": r["weight"], "rel": r.get("rel"),
+                                   "coact": int((r.get("attrs") or {}).get("coact", 0))}
+            self.model.covered[k] = self.model.lo <= r["weight"] <= self.model.hi
+        self.model.nodes = {str(n): dict(v) if isinstance(v, dict) else {"id": str(n)} for n, v in g["nodes"].items()}
+
+    def do_snapshot(self, op):
+        """write_snapshot + load_latest_snapshot (same or fresh state): a graph that has one canonical record per pair
+        must come back with exactly the same keys and endpoints (weights, rel and counters are C06's business: the
+        reference model simply takes them over as new initial content)."""
+        import shutil
+        import tempfile
+        from clematis.engine import snapshot as snapmod
+
+        g0 = self._ensure()
+        d = tempfile.mkdtemp(prefix="vx_c18s_", dir=_tmp_base())
+        try:
+            ctx = self._snap_ctx(d)
+            snapmod.write_snapshot(ctx, self.state, "7", 0, [])
+            if op.get("fresh"):
+                self.state = self._fresh_state()
+            info = snapmod.load_latest_snapshot(ctx, self.state)
+        finally:
+            shutil.rmtree(d, ignore_errors=True)
+        if not info.get("path"):
+            raise RuntimeError(f"snapshot round trip: nothing was loaded ({info})")
+        g = self.graph()
+        if set(g["edges"]) != set(g0["edges"]):
+            self.fail(f"snapshot round trip changed the edge keys: {sorted(g0['edges'])} -> {sorted(g['edges'])}",
+                      "snapshot-rekey")
+        for k, r in g["edges"].items():
+            b = g0["edges"][k]
+            if {r.get("src"), r.get("dst")} != {b["src"], b["dst"]}:
+                self.fail(f"snapshot round trip turned edge {k!r} {b} into {r}", "snapshot-record")
+        self._resync("snapshot round trip")
+        self.flag("snapshot_roundtrip")
+        if g0["edges"]:
+            self.flag("snapshot_roundtrip_edges")
+
+    def _boot_legacy(self, legacy):
+        """Boot load of a foreign / older snapshot body: edges as a list or under arbitrary keys, endpoints in any
+        order, the same pair listed twice (either direction, different rel)."""
+        import os
+        import shutil
+        import tempfile
+        from clematis.engine import snapshot as snapmod
+
+        edges = legacy.get("edges") or []
+        if legacy.get("form") == "list":
+            body = [{"src": a, "dst": b, "rel": rel, "weight": w} for a, b, w, rel, _ in edges]
+        else:
+            body = {}
+            for n, (a, b, w, rel, style) in enumerate(edges):
+                key = {"arrow": f"{a}{SEP}{b}", "under": f"{a}__{b}__{rel}"}.get(style, f"e{n}")
+                rec = {"src": a, "dst": b, "rel": rel, "weight": w}
+                if style == "arrow":
+                    rec["id"] = key
+                    rec["attrs"] = {"coact": 2, "last_seen_turn": None}
+                body[key] = rec
+        gel_body = {"nodes": {}, "edges": body}
+        if legacy.get("meta"):
+            gel_body["meta"] = {"schema": "v1", "merges": [], "splits": [], "promotions": [], "concept_nodes_count": 0}
+        payload = {"turn": 1, "agent": "A", "version_etag": "3", "schema_version": "v1", "store": {},
+                   legacy.get("section") or "gel": gel_body}
+        d = tempfile.mkdtemp(prefix="vx_c18b_", dir=_tmp_base())
+        try:
+            with open(os.path.join(d, "state_A.json"), "w", encoding="utf-8") as f:
+                json.dump(payload, f)
+            info = snapmod.load_latest_snapshot(self._snap_ctx(d), self.state)
+        finally:
+            shutil.rmtree(d, ignore_errors=True)
+        if not info.get("path"):
+            raise RuntimeError(f"legacy boot: nothing was loaded ({info})")
+        self.loose = True
+        self._resync("boot load", allowed_pairs={tuple(sorted((str(a), str(b)))) for a, b, _, _, _ in edges})
+        self.flag("boot_legacy")
+        pairs = [tuple(sorted((a, b))) for a, b, _, _, _ in edges]
+        if len(set(pairs)) < len(pairs):
+            self.flag("boot_dup_pair")
+        if any(a > b for a, b, _, _, _ in edges):
+            self.flag("boot_reversed_endpoints")
 
     # ------------------------------------------------------------------ disabled path
     def apply_disabled(self, op):
@@ -592,9 +778,26 @@ class World:
             nt = bool(f.get("tick_nontrivial"))
         elif kind == "maint":
             nt = bool((f.get("merge_applied") or f.get("split_applied")) and f.get("promotion_applied"))
+        elif kind == "boot":
+            nt = bool(f.get("boot_legacy") and (f.get("boot_reversed_endpoints") or f.get("boot_dup_pair")))
         else:
             nt = bool(nops >= 3 and f.get("gate_obs_would_pair") and f.get("gate_direct_apply"))
         labels = sorted(k for k in f if not k.startswith("op_")) + [f"mode={self.g['update']['mode']}"]
+        init = self.history[0]
+        labels.append(f"ctx={init.get('ctx')}")
+        if init.get("store_shape"):
+            labels.append(f"store={init['store_shape']}")
+        if init.get("nodes"):
+            labels.append("preexisting_concept_node")
+        for k, lab in (("coactivation_threshold", "threshold=0"), ("pair_cap_per_obs", "pair_cap=0")):
+            if self.g[k] == 0:
+                labels.append(lab)
+        if self.g["update"]["clamp_max"] == 0:
+            labels.append("clamp_max=0")
+        if self.g["update"]["clamp_min"] == 0:
+            labels.append("clamp_min=0")
+        if self.g["decay"]["floor"] == self.g["update"]["clamp_max"]:
+            labels.append("floor=clamp_max")
         if self.g["update"]["clamp_min"] > 0:
             labels.append("clamp_excludes_0")
         if self.had_graph:
@@ -638,7 +841,8 @@ def _pick(*xs):
 def graph_settings(draw, enabled=True, maint=False):
     hi = draw(st.one_of(_pick(1.0, 1.0, 1.0, 0.1, 0.75, 0.5, 2.0, 0.25, 5.0, 0.0, 1e308),
                         st.floats(min_value=0.0, max_value=4.0, allow_nan=False)))
-    lo_kind = draw(_pick("sym", "neg", "neg", "zero", "pos", "big"))
+    lo_kind = draw(_pick("sym", "sym", "sym", "neg", "neg", "neg", "neg", "zero", "zero", "zero", "big", "big", "sym", "neg",
+                         "neg", "pos"))
     if lo_kind == "sym" and hi > 0:
         lo = -hi
     elif lo_kind == "zero" and hi > 0:
@@ -653,23 +857,23 @@ def graph_settings(draw, enabled=True, maint=False):
         lo = -1.0
     alpha = draw(st.one_of(_pick(0.25, 0.5, 0.125, 1.0, 0.02, 0.3, 2.0, 0.0625, 1e-9, 1e308),
                            st.floats(min_value=1e-6, max_value=2.0, allow_nan=False)))
-    floor = min(hi, draw(st.one_of(_pick(0.0, 0.0, 0.05, 0.1, 0.125, 0.25, 0.5, 0.0625, 1e-300),
-                                   st.floats(min_value=0.0, max_value=1.0, allow_nan=False))))
+    floor = min(hi, draw(st.one_of(_pick(0.0, 0.0, 0.05, 0.1, 0.125, 0.25, 0.5, 0.0625, 1e-300, 1e308),
+                                   st.floats(min_value=0.0, max_value=1.0, allow_nan=False))))  # 1e308 -> floor == clamp_max
     min_avg_w = draw(_pick(0.0, 0.05, 0.2, 0.5, 1.0)) if maint else draw(_pick(0.2, 0.0, 0.5))
     weak = min(min_avg_w, draw(_pick(0.0, 0.05, 0.2, 0.3, 0.5)))
     return {
         "enabled": enabled,
         "coactivation_threshold": draw(st.one_of(_pick(0.2, 0.2, 0.0, 0.5, 1.0, 0.9), st.floats(min_value=0.0, max_value=1.0))),
-        "observe_top_k": draw(_pick(1, 2, 2, 3, 3, 4, 8, 64)),
-        "pair_cap_per_obs": draw(_pick(0, 1, 1, 2, 3, 5, 2048, 2048)),
+        "observe_top_k": draw(_pick(1, 2, 2, 3, 3, 4, 8, 64, 64, 65, 100, 10 ** 9)),
+        "pair_cap_per_obs": draw(_pick(0, 1, 1, 2, 3, 5, 2048, 2048, 2049, 10 ** 9)),
         "update": {"mode": draw(_pick("additive", "proportional")), "alpha": alpha, "clamp_min": lo, "clamp_max": hi},
-        "decay": {"half_life_turns": draw(_pick(1, 1, 2, 3, 10, 200, 10 ** 6)), "floor": floor},
+        "decay": {"half_life_turns": draw(_pick(1, 1, 2, 3, 10, 200, 10 ** 6, 10 ** 17)), "floor": floor},
         "merge": {"enabled": True, "min_size": draw(_pick(2, 2, 3)), "min_avg_w": min_avg_w,
-                  "max_diameter": draw(_pick(1, 2, 3)), "cap_per_turn": draw(_pick(0, 1, 2, 4))},
+                  "max_diameter": draw(_pick(1, 2, 2, 3, 3, 10 ** 9)), "cap_per_turn": draw(_pick(0, 1, 2, 4))},
         "split": {"enabled": True, "weak_edge_thresh": weak, "min_component_size": draw(_pick(2, 2, 3)),
                   "cap_per_turn": draw(_pick(0, 1, 4))},
         "promotion": {"enabled": True, "label_mode": draw(_pick("lexmin", "concat_k")),
-                      "topk_label_ids": draw(_pick(1, 2, 3)),
+                      "topk_label_ids": draw(_pick(1, 2, 2, 3, 3, 10 ** 9)),
                       "attach_weight": draw(st.one_of(_pick(0.5, 0.3, 1.0, -1.0, 0.0, -0.25),
                                                       st.floats(min_value=-1.0, max_value=1.0))),
                       "cap_per_turn": draw(_pick(0, 1, 2, 2))},
@@ -677,7 +881,8 @@ def graph_settings(draw, enabled=True, maint=False):
 
 
 def ids_():
-    return st.one_of(st.sampled_from(IDS), st.sampled_from(IDS[:4]), _pick(9, 10))
+    return st.one_of(st.sampled_from(IDS), st.sampled_from(IDS), st.sampled_from(IDS[:4]), st.sampled_from(IDS[:4]),
+                     _pick(9, 10), st.sampled_from(IDS_RARE))
 
 
 def scores_(thr_pool=(0.2, 0.5, 0.0, 1.0, 0.9)):
@@ -694,6 +899,23 @@ def observe_op(draw, max_items=8):
     perm = list(draw(st.permutations(list(range(n)))))
     return {"op": "observe", "items": items, "perm": perm, "turn": draw(_pick(None, 0, 1, 7)),
             "container": draw(_pick("list", "list", "tuple", "iter"))}
+
+
+@st.composite
+def big_observe_op(draw):
+    """More items than the default top-k (64) / more pairs than the default pair cap (2048)."""
+    n = draw(st.integers(66, 90))
+    ids = draw(st.permutations(BIG_IDS))[:n]
+    hi = draw(_pick(0.95, 0.9, 1.0))
+    n_low = draw(st.integers(0, 3))  # a few items below any threshold >= 0.2; the rest qualifies (>= 63 items)
+    items = [{"shape": "tuple", "id": i, "score": 0.1 if j < n_low else draw(_pick(hi, hi, hi, 0.8, 0.85))}
+             for j, i in enumerate(ids)]
+    perm = list(range(n))[::-1] if draw(st.booleans()) else list(draw(st.permutations(list(range(n)))))
+    return {"op": "observe", "items": items, "perm": perm, "turn": draw(_pick(None, 2)), "container": "list"}
+
+
+def snapshot_op():
+    return st.builds(lambda fresh: {"op": "snapshot", "fresh": fresh}, st.booleans())
 
 
 def tick_op():
@@ -727,11 +949,16 @@ def promote_direct_op():
 
 
 def promote_apply_op():
-    def mk(ns, w, lab):
+    def mk(ns, w, lab, extra):
         ns = sorted(ns)
-        return {"op": "promote_apply", "promo": {"concept_id": "c::" + ns[0], "label": lab or ns[0], "members": ns,
-                                                 "attach_weight": w}}
-    return st.builds(mk, _nodes(1, 3), _pick(0.5, 0.3, -1.0, 1.0, 0.0), _pick(None, "L"))
+        promo = {"concept_id": "c::" + ns[0], "label": lab or ns[0], "members": ns + sorted(extra), "attach_weight": w}
+        if w is None:  # apply_promotion documents defaults for both (0.5 / the concept id)
+            del promo["attach_weight"]
+            del promo["label"]
+        return {"op": "promote_apply", "promo": promo}
+    # `extra`: a later promotion of the same concept with more members (the node exists, new edges must still attach)
+    return st.builds(mk, _nodes(1, 3), _pick(0.5, 0.3, -1.0, 1.0, 0.0, -0.5, None), _pick(None, "L"),
+                     st.one_of(st.just([]), st.just([]), st.lists(st.sampled_from(IDS_RARE[:4] + ["z"]), max_size=2, unique=True)))
 
 
 def maint_op():
@@ -739,9 +966,11 @@ def maint_op():
                      merge_direct_op(), split_direct_op(), promote_direct_op(), promote_apply_op())
 
 
-def any_op():
-    return st.one_of(observe_op(), observe_op(), observe_op(), observe_op(), tick_op(), tick_op(), tick_op(), maint_op(),
-                     maint_op())
+def any_op(snapshots=True):
+    ops = [observe_op()] * 8 + [tick_op()] * 6 + [maint_op()] * 4
+    if snapshots:  # not a GEL operation: never part of a gate-off history
+        ops.append(snapshot_op())
+    return st.one_of(*ops)
 
 
 def init_edges(max_edges=5, strong=False):
@@ -755,27 +984,53 @@ def init_edges(max_edges=5, strong=False):
 @st.composite
 def init_(draw, enabled=True, edges=None, maint=False):
     ed = draw(edges) if edges is not None else []
-    return {"op": "init", "graph": draw(graph_settings(enabled=enabled, maint=maint)), "ctx": draw(_pick("ns", "ns", "dict")),
+    g = draw(graph_settings(enabled=enabled, maint=maint))
+    floor = g["decay"]["floor"]
+    if ed and 0.0 < floor < 1e300 and draw(_pick(False, False, True)):
+        # weights that a tick carries to exactly the floor / one ulp around it (2**-j is exact)
+        for e in ed[: draw(st.integers(1, 2))]:
+            w = floor * 2.0 ** draw(st.integers(0, 3))
+            w = draw(_pick(w, w, math.nextafter(w, 0.0), math.nextafter(w, INF)))
+            e[2] = w if draw(_pick(True, True, False)) else -w
+    init = {"op": "init", "graph": g, "ctx": draw(_pick("ns", "ns", "ns", "dict", "dict", "cfg_only", "config_only")),
             "state": draw(_pick("obj", "dict")), "edges": ed, "has_graph": bool(ed) or draw(st.booleans())}
+    if init["has_graph"]:
+        init["store_shape"] = draw(_pick("full", "full", "full", "edges_only", "no_meta", "meta_v1", "alias_gel"))
+        if draw(_pick(False, False, False, True)):
+            # a concept node left over from an earlier promotion (its edges may have decayed away since)
+            init["nodes"] = [[cid, draw(_pick("old", cid))] for cid in draw(st.lists(_pick("c::a", "c::b", "c::10", "c::B"),
+                                                                                     min_size=1, max_size=2, unique=True))]
+        init["bare_concept_attrs"] = draw(st.booleans())
+    elif draw(_pick(False, False, False, True)):
+        init["store_shape"] = "none_value"
+    return init
 
 
 @st.composite
 def hist_observe(draw):
     init = draw(init_(edges=init_edges(4)))
+    if draw(_pick(*([False] * 7 + [True]))):
+        # sizes beyond the default caps: 65..80 items, top-k / pair cap at and just above the defaults (64 / 2048)
+        g = init["graph"]
+        g["observe_top_k"] = draw(_pick(64, 65, 65, 100, 100, 10 ** 9, 10 ** 9, 3))
+        g["pair_cap_per_obs"] = draw(_pick(2048, 2049, 2049, 10 ** 9, 10 ** 9, 10 ** 9, 5))
+        g["coactivation_threshold"] = min(g["coactivation_threshold"], 0.5)
+        return [init, draw(big_observe_op())] + draw(st.lists(st.one_of(big_observe_op(), observe_op(max_items=12)), max_size=1))
     return [init] + draw(st.lists(observe_op(max_items=12), min_size=1, max_size=3))
 
 
 @st.composite
 def hist_tick(draw):
     init = draw(init_(edges=init_edges(6)))
-    ops = draw(st.lists(st.one_of(tick_op(), tick_op(), tick_op(), observe_op(max_items=4)), min_size=1, max_size=5))
+    ops = draw(st.lists(st.one_of(*([tick_op()] * 9 + [observe_op(max_items=4)] * 3 + [snapshot_op(), promote_apply_op()])),
+                        min_size=1, max_size=5))
     return [init] + ops + [draw(tick_op())]
 
 
 @st.composite
 def hist_maint(draw):
     init = draw(init_(edges=init_edges(6, strong=True), maint=True))
-    ops = draw(st.lists(st.one_of(maint_op(), maint_op(), maint_op(), observe_op(max_items=5), tick_op()),
+    ops = draw(st.lists(st.one_of(*([maint_op()] * 9 + [observe_op(max_items=5)] * 3 + [tick_op()] * 3 + [snapshot_op()])),
                         min_size=1, max_size=6))
     return [init] + ops
 
@@ -785,7 +1040,28 @@ def hist_gate(draw):
     init = draw(init_(enabled=False, edges=st.one_of(st.just([]), init_edges(4))))
     if not init["edges"]:
         init["has_graph"] = draw(st.booleans())
-    return [init] + draw(st.lists(any_op(), min_size=1, max_size=8))
+    return [init] + draw(st.lists(any_op(snapshots=False), min_size=1, max_size=8))
+
+
+@st.composite
+def hist_boot(draw):
+    """Boot load of a legacy snapshot body, then a short history on the loaded graph (incl. another round trip)."""
+    init = draw(init_())
+    init["has_graph"], init["edges"] = False, []
+    for k in ("store_shape", "nodes", "bare_concept_attrs"):
+        init.pop(k, None)
+    ids = st.one_of(st.sampled_from(IDS), st.sampled_from(IDS[:4]), st.sampled_from(IDS_RARE))
+    w = _pick(0.5, 0.25, 1.0, -0.5, 0.05, 0.0, 1, 0.123456789, -1.0, 0.8)
+    e = st.tuples(ids, ids, w, _pick("coact", "coact", "coact", "concept"), _pick("arrow", "under", "n"))
+    edges = [list(x) for x in draw(st.lists(e, min_size=1, max_size=6))]
+    if draw(st.booleans()):  # the same pair again: other direction and/or other rel
+        a, b, w0, rel, style = draw(st.sampled_from(edges))
+        edges.append([b, a, draw(w), draw(_pick(rel, "concept", "coact")), style])
+    init["legacy"] = {"form": draw(_pick("list", "dict", "dict")), "section": draw(_pick("gel", "gel", "graph")),
+                      "meta": draw(st.booleans()), "edges": edges}
+    ops = draw(st.lists(st.one_of(*([observe_op(max_items=5)] * 4 + [tick_op()] * 2 + [maint_op(), snapshot_op()])),
+                        min_size=0, max_size=4))
+    return [init] + ops
 
 
 # =============================================================================================== sub-checks
@@ -833,6 +1109,7 @@ sub_observe = _sub("observe", hist_observe)
 sub_tick = _sub("tick", hist_tick)
 sub_maint = _sub("maint", hist_maint)
 sub_gate = _sub("gate", hist_gate)
+sub_boot = _sub("boot", hist_boot)
 
 
 # ----------------------------------------------------------------------------------- orchestrator level ("turns")
@@ -844,9 +1121,43 @@ TEXTS = ["apple pear", "apple", "apple pear kiwi", "plum", "kiwi plum", "pear", 
 def turn_cases(draw):
     g = draw(graph_settings(enabled=draw(_pick(True, True, True, False)), maint=True))
     for sec in ("merge", "split", "promotion"):
-        g[sec]["enabled"] = draw(st.booleans())
-    return {"graph": g, "episodes": draw(st.lists(st.sampled_from(TEXTS), min_size=2, max_size=6)),
-            "turns": draw(st.lists(st.sampled_from(TEXTS), min_size=1, max_size=3))}
+        g[sec]["enabled"] = draw(_pick(True, True, False))
+    episodes = draw(st.lists(st.sampled_from(TEXTS), min_size=2, max_size=6))
+    case = {"graph": g, "episodes": episodes, "turns": draw(st.lists(st.sampled_from(TEXTS), min_size=1, max_size=3))}
+    if draw(_pick(True, True, True, False)):
+        # a graph is already there (as after a boot load): strong pairs, weak bridges, a concept edge, an id that sorts
+        # before "c::" -- so that the per-turn maintenance block has candidates to cap, annotate and promote
+        n = len(episodes)
+        ids = [f"ep{i}" for i in range(n)] + ["Z9", "zz"]
+        w = _pick(0.9, 0.8, 1.0, 0.6, 0.9, 0.03, 0.01, -0.7)
+        e = st.tuples(st.sampled_from(ids), st.sampled_from(ids), w, _pick("coact", "coact", "coact", "concept"))
+        pattern = draw(_pick("bridge", "bridge", "triangle", "random"))
+        base = {"bridge": [("ep0", "ep1", 0.9, "coact"), ("Z9", "zz", draw(_pick(0.8, -0.8)), "coact"),
+                           ("ep1", "Z9", draw(_pick(0.03, 0.02, -0.03)), "coact")],
+                "triangle": [("ep0", "ep1", 0.9, "coact"), ("ep1", "Z9", 0.8, "coact"), ("ep0", "Z9", 0.7, "concept")],
+                "random": []}[pattern]
+        extra = draw(st.lists(e, min_size=0 if base else 1, max_size=4))
+        seen_keys, pre = set(), []
+        for x in base + extra:
+            k = canon(x[0], x[1])[0]
+            if k not in seen_keys:
+                seen_keys.add(k)
+                pre.append(list(x))
+        case["pre_edges"] = pre
+        if base or draw(st.booleans()):  # settings under which those edges survive the tick and qualify
+            g["decay"]["floor"] = min(g["decay"]["floor"], draw(_pick(0.0, 0.0, 0.01)))
+            g["decay"]["half_life_turns"] = draw(_pick(3, 10, 200))
+            g["merge"]["min_avg_w"] = draw(_pick(0.0, 0.05, 0.2, 0.5))
+            g["merge"]["min_size"] = 2
+            g["merge"]["enabled"] = draw(_pick(True, True, True, False))
+            g["split"]["weak_edge_thresh"] = min(g["merge"]["min_avg_w"], draw(_pick(0.05, 0.2)))
+            g["split"]["min_component_size"] = 2
+            g["split"]["enabled"] = draw(_pick(True, True, True, False))
+            g["promotion"]["enabled"] = draw(_pick(True, True, True, False))
+    if g["enabled"] and len(case["turns"]) >= 2:
+        # process restarts: a fresh state boot-loads the snapshot the previous turn wrote
+        case["restarts"] = sorted(draw(st.lists(st.integers(2, len(case["turns"])), max_size=2, unique=True)))
+    return case
 
 
 def check_turns(case, rec=None):
@@ -862,7 +1173,10 @@ def check_turns(case, rec=None):
     from harness.world import sandbox, validated_cfg, make_ctx, build_store, reset_engine_globals
 
     g = case["graph"]
-    shadow = World({"op": "init", "graph": g, "ctx": "ns", "state": "dict", "edges": [], "has_graph": False}, rec)
+    pre_edges = case.get("pre_edges") or []
+    restarts = set(case.get("restarts") or [])
+    shadow = World({"op": "init", "graph": g, "ctx": "ns", "state": "dict", "edges": pre_edges, "has_graph": bool(pre_edges)},
+                   rec)
     if shadow.rejected:
         return
     seen = []
@@ -882,15 +1196,26 @@ def check_turns(case, rec=None):
             idx.add({"id": f"ep{i}", "owner": "A", "text": txt, "vec_full": enc.encode([txt])[0],
                      "ts": "2025-06-15T00:00:00Z", "aux": {}})
         state = {"store": build_store({}), "active_graphs": [], "mem_index": idx, "_boot_loaded": True, "version_etag": "0"}
+        if pre_edges:
+            state["graph"] = copy.deepcopy(shadow.graph())
+        graph0 = _snap(state.get("graph"))
         core.gel_observe = spy
         try:
             for t, text in enumerate(case["turns"], start=1):
                 del seen[:]
+                restarted = g["enabled"] and t in restarts
+                if restarted:
+                    # a new process: nothing but the snapshot directory survives (the previous turn wrote state_A.json)
+                    reset_engine_globals()
+                    state = {"store": build_store({}), "active_graphs": [], "mem_index": idx, "version_etag": "0"}
                 core.Orchestrator().run_turn(make_ctx(cfg, agent="A", turn_id=t), state, text)
                 if not g["enabled"]:
-                    if "graph" in state:
+                    if "graph" in state and not pre_edges:
                         raise Violation(f"graph.enabled=false: turn {t} created state['graph'] = {state['graph']}", case,
                                         "gate-creates-graph")
+                    if _snap(state.get("graph")) != graph0:
+                        raise Violation(f"graph.enabled=false: turn {t} changed state['graph']: {graph0} -> "
+                                        f"{_snap(state.get('graph'))}", case, "gate-mutates")
                     if os.path.exists(os.path.join(d, "logs", "gel.jsonl")):
                         raise Violation(f"graph.enabled=false: turn {t} wrote gel.jsonl", case, "gate-log")
                     continue
@@ -899,8 +1224,9 @@ def check_turns(case, rec=None):
                 if not all(isinstance(r, EpisodeRef) for r in seen[0]):
                     raise RuntimeError(f"orchestrator passes items of an unexpected shape: {seen[0][:2]}")
                 items = [{"shape": "ref", "id": r.id, "score": float(r.score)} for r in seen[0]]
-                ops = [{"op": "observe", "items": items, "perm": list(range(len(items)))[::-1], "turn": t, "container": "list"},
-                       {"op": "tick", "dt": 1, "turn": t}]
+                ops = [{"op": "snapshot", "fresh": True}] if restarted else []
+                ops += [{"op": "observe", "items": items, "perm": list(range(len(items)))[::-1], "turn": t, "container": "list"},
+                        {"op": "tick", "dt": 1, "turn": t}]
                 if g["merge"]["enabled"]:
                     ops.append({"op": "merge_pass"})
                 if g["split"]["enabled"]:
@@ -923,9 +1249,17 @@ def check_turns(case, rec=None):
                 paired = max(int(json.loads(ln).get("k_returned", 0)) for ln in f if ln.strip())
     if rec is not None:
         f = shadow.flags
-        nt = bool(f.get("obs_effective")) if g["enabled"] else paired >= 2
+        nt = bool(f.get("obs_effective") or f.get("merge_applied") or f.get("split_applied")
+                  or f.get("promotion_applied")) if g["enabled"] else paired >= 2
         labels = sorted(k for k in f if not k.startswith("op_")) + ["enabled" if g["enabled"] else "disabled"] + \
                  [f"{sec}_on" for sec in ("merge", "split", "promotion") if g[sec]["enabled"] and g["enabled"]]
+        if pre_edges:
+            labels.append("preexisting_graph")
+        if restarts and g["enabled"]:
+            labels.append("restart")
+        for sec, fl in (("merge", "merge_applied"), ("split", "split_applied"), ("promotion", "promotion_applied")):
+            if g["enabled"] and g[sec]["cap_per_turn"] == 0 and g[sec]["enabled"]:
+                labels.append(f"{sec}_cap=0")
         rec.case(nontrivial=nt, dig=digest(case) if nt else None, labels=labels,
                  sample={"episodes": case["episodes"], "turns": case["turns"], "flags": dict(f),
                          "edges_end": {k: v[2] for k, v in list(shadow.real_view().items())[:6]}} if nt else None)
@@ -990,5 +1324,6 @@ SUBCHECKS = [
     Sub("maint", sub_maint, quick={"n": 300}, thorough={"n": 5000}, shards_quick=2, shards_thorough=8,
         replay=replay_history),
     Sub("gate", sub_gate, quick={"n": 300}, thorough={"n": 5000}, shards_quick=2, shards_thorough=8, replay=replay_history),
+    Sub("boot", sub_boot, quick={"n": 300}, thorough={"n": 5000}, shards_quick=1, shards_thorough=8, replay=replay_history),
     Sub("turns", sub_turns, quick={"n": 120}, thorough={"n": 1500}, shards_quick=2, shards_thorough=8, replay=replay_turns),
 ]
